@@ -14,7 +14,7 @@ DECIDES = ('the input of split_curve / split_surface_u / split_surface_v / decom
            'direction-coherent: degree, knot vector, size, multiplicity and the position of the parameter and of the insertion count in '
            'the per-direction lists all belong to the function\'s direction, the other direction is copied unchanged (AX3/AXL/AXK); the '
            'insertion count is degree - multiplicity of the split direction; decomposition iterates over exactly the interior knots '
-           'kv[p+1 : -(p+1)] and uses the split functions in (u, v) order (DC1); [SKEL, bounded] the knot insertion skeleton used for splitting defines every output cell for every existing-knot multiplicity.')
+           'kv[p+1 : -(p+1)] and uses the split functions in (u, v) order (DC1); [SKEL, bounded] the knot insertion skeleton used for splitting defines every output cell for every existing-knot multiplicity. the knot insertion helper that splitting is built on never hands a cell of its in-place-updated work array to the output without a deep copy (AL1).')
 NOT_DECIDED = 'coincidence of the pieces with the original under the affine domain map, slice offsets ks + r of the control net, one piece per non-empty interval: numerical/index-arithmetic facts of the algorithm.'
 TECHNIQUE = 'alias/mutation analysis with deep-mutation summaries, CFG dominance, axis tags'
 
@@ -54,6 +54,8 @@ def check(m, run):
     # splitting inserts the split parameter up to full multiplicity, usually at an existing knot (s >= 1): the A5.1 cell skeleton
     from .. import skel_drivers
     skel_drivers.c04(m, run)
+    from .. import ops_common as oc
+    oc.helper_alias_rules(m, run, 'helpers.knot_insertion')
 
 
 def split_rules(m, run, fi, axis, pdim):
